@@ -9,7 +9,7 @@ Property "{p['title']}":
 (Quantified over: {p['quantifier']['text']})
 Relevant files: {', '.join(p['anchors']['files'])}
 
-Task: write ONE small, realistic change to the library source (under /tmp/wt/{pid}/jinns/) that BREAKS this property while the code still imports and the existing pinned test-suite still passes. It should look like a plausible bug or an innocent-looking refactoring slip (off-by-one, wrong axis, stale state, swapped arguments, wrong operand, a condition that is subtly wrong, two cooperating sites that each look fine alone), NOT sabotage (no random noise, no 'if x == 42'). Prefer a change that needs something SPECIFIC to manifest - a particular multi-step sequence of calls, a particular size relation (e.g. only when a batch size does not divide n, only after the second reshuffle, only in 2D, only with a particular option), an unusual but legal input - rather than one that ordinary use would expose at once.
+Task: write ONE small, realistic change to the library source (under /tmp/wt/{pid}/jinns/) that BREAKS this property while the code still imports and the existing pinned test-suite still passes. It should look like a plausible bug or an innocent-looking refactoring slip (off-by-one, wrong axis, stale state, swapped arguments, wrong operand, a condition that is subtly wrong, two cooperating sites that each look fine alone), NOT sabotage (no random noise, no `if x == 42`). Avoid the single most obvious spot for this property: pick a less obvious place or a less common configuration (another generator kind, another loss kind, an option that is rarely used, an interaction between two features). Prefer a change that needs something SPECIFIC to manifest - a particular multi-step sequence of calls, a particular size relation (e.g. only when a batch size does not divide n, only after the second reshuffle, only in 2D, only with a particular option), an unusual but legal input - rather than one that ordinary use would expose at once.
 
 How to run things:
  - Python: `cd /tmp/wt/{pid} && PYTHONPATH=/tmp/wt/{pid} /venv/bin/python -W ignore your_script.py` (this imports the worktree's jinns; check with `import jinns; print(jinns.__file__)`). CPU only, no network. Every shell call prints a harmless conda WARNING line; ignore it.
